@@ -301,6 +301,11 @@ class SR:
 
     def sqrt(s):
         e = z3.simplify(s.e)
+        if z3.is_rational_value(e):                       # a constant radicand that is a perfect square stays a constant (9/4 -> 3/2)
+            import math
+            n, d = e.numerator_as_long(), e.denominator_as_long()
+            if n >= 0 and math.isqrt(n) ** 2 == n and math.isqrt(d) ** 2 == d:
+                return SR(z3.RealVal(f"{math.isqrt(n)}/{math.isqrt(d)}"))
         key = "sqrt" + e.sexpr()
         if key not in CTX.memo:
             r = CTX.fresh("sqrt")
